@@ -760,7 +760,7 @@ def _run_param(case):
                 C["grad_compared"] += 1
                 ncomp[0] += 1
                 if n in ("g_pp", "g_p2") and any(float(vdir[n][i].abs()) > 0 for i in on_floor):
-                    C["grad_compared_atom_on_hpp_floor", "repeat_grad_compared"] += 1
+                    C["grad_compared_atom_on_hpp_floor"] += 1
                 if k in DENSITY_OUTPUTS:
                     C["grad_compared_density_outputs"] += 1
                     ncomp[1] += 1
@@ -959,14 +959,16 @@ def _run_force(case):
         g = np.random.default_rng(case["dir_seed"])
         ndir = 0
         badd = []
-        for _ in range(3):
+        for _ in range(7):
+            if ndir >= 3:
+                break
             d = g.normal(size=(nat, 3))
             d /= np.linalg.norm(d)
             D = {}
             ok = True
             for key in ("Etot", "Hf"):
                 D[key] = []
-            for h in (2e-3, 1e-3):
+            for h in (2e-3, 1e-3, 5e-4):
                 a = es_full(X + h * d, f, names)
                 b = es_full(X - h * d, f, names)
                 if a["nc"] or b["nc"]:
@@ -978,8 +980,16 @@ def _run_force(case):
                 continue
             Fd = float((ref["F"] * d).sum())
             Ffix = float((fixed["F"] * d).sum())
-            rich = {key: (4 * D[key][1] - D[key][0]) / 3 for key in D}
+            rich = {key: (4 * D[key][2] - D[key][1]) / 3 for key in D}
+            rich1 = {key: (4 * D[key][1] - D[key][0]) / 3 for key in D}
             tol = TOL_F_ABS + TOL_F_REL * abs(Fd)
+            # the returned energy is not perfectly smooth (steps of ~5e-7 eV as a function of the orbital exponents, which
+            # the callable moves with the geometry): a difference quotient is an oracle only when two nested Richardson
+            # estimates agree to a fifth of the bound
+            if all(math.isfinite(rich[k]) and math.isfinite(rich1[k]) for k in rich) and \
+                    not all(abs(rich[k] - rich1[k]) <= 0.2 * tol for k in rich):
+                C["fd_not_smooth_skipped"] += 1
+                continue
             r_hf = _fin(abs(Fd + rich["Hf"]) / tol)
             r_et = _fin(abs(Fd + rich["Etot"]) / tol)
             ndir += 1
